@@ -124,6 +124,7 @@ func (s *Server[StateT]) serveConn(conn net.Conn) {
 	}()
 
 	defer conn.Close()
+	defer discardUnread(conn)
 
 	for {
 		if err := s.setConnReadDeadline(conn); err != nil {
@@ -152,6 +153,27 @@ func (s *Server[StateT]) serveConn(conn net.Conn) {
 			return
 		}
 	}
+}
+
+// discardUnread takes what client has sent but nobody is going to read anymore.
+// Closing a socket which has unread data makes the system reset the connection instead of finishing it, and a reset
+// throws away answers (to requests served before) which are still on their way to client.
+func discardUnread(conn net.Conn) {
+	const (
+		maxWait  = 100 * time.Millisecond
+		maxBytes = 1 << 20
+	)
+
+	// client learns at once that nothing more will come, if connection is able to tell
+	if hc, ok := conn.(interface{ CloseWrite() error }); ok {
+		_ = hc.CloseWrite()
+	}
+
+	if err := conn.SetReadDeadline(time.Now().Add(maxWait)); err != nil {
+		return
+	}
+
+	_, _ = io.CopyN(io.Discard, conn, maxBytes)
 }
 
 func (s *Server[StateT]) handleCommand(opCode proto.OpCode, ctx *Context[StateT]) error {
